@@ -1,4 +1,237 @@
+/-
+Driver for C13: reads the cases printed by harness/c13 (which ran the REAL tick/ast, pipeline and
+pipeline/tick code), and per case
+  1. evaluates the spec (Kap/Spec/C13.lean) on the OBSERVED events  → SPECFAIL / KNOWN,
+  2. replays the expression ops on the model (Kap/Model/C13.lean) and compares every observation → MISMATCH.
+Script-level ops (script/sfmt/sreparse/dot/ptick/pjson) have no model: they are judged by the spec only.
+-/
 import Kap.Basic
+import Kap.Model.C13
+import Kap.Spec.C13
+open Kap Kap.C13 Kap.C13.Gen
 
-/-- Driver for property C13 (replaced by the property's driver). -/
-def main : IO Unit := Kap.driverMain (fun _ _ => .badop "driver not implemented")
+namespace Kap.C13.Drv
+
+/-! reading an expression dump back into a model tree (for `build`) -/
+
+def opOfEsc (s : String) : Option BinOp := (unesc s).bind opOfStr?
+
+mutual
+def undump : Nat → List String → Option (Expr × List String)
+  | 0, _ => none
+  | f + 1, ts =>
+    match ts with
+    | "num" :: "i" :: b :: v :: rest => do pure (.lit (.num (.int (← b.toNat?) (← v.toInt?))), rest)
+    | "num" :: "f" :: v :: rest => some (.lit (.num (.flt v)), rest)
+    | "dur" :: ns :: l :: rest => do pure (.lit (.dur (← ns.toInt?) (← unesc l)), rest)
+    | "bool" :: b :: rest => some (.lit (.bool (b == "1")), rest)
+    | "str" :: t :: l :: rest => do pure (.lit (.str (← unesc l) (t == "1")), rest)
+    | "rx" :: re :: l :: rest => do pure (.lit (.rx (← unesc re) (← unesc l)), rest)
+    | "ref" :: s :: rest => do pure (.lit (.ref (← unesc s)), rest)
+    | "id" :: s :: rest => do pure (.id (← unesc s), rest)
+    | "star" :: rest => some (.lit .star, rest)
+    | "un" :: o :: rest => do
+      let os ← unesc o
+      let op ← if os == UnOp.neg.str then some UnOp.neg else if os == UnOp.not.str then some UnOp.not else none
+      let (e, rest') ← undump f rest
+      pure (.un op e, rest')
+    | "bin" :: o :: p :: rest => do
+      let op ← opOfEsc o
+      let (l, r1) ← undump f rest
+      let (r, r2) ← undump f r1
+      pure (.bin op l r (p == "1"), r2)
+    | "call" :: n :: k :: rest => do
+      let (as, rest') ← undumps f (← k.toNat?) rest
+      pure (.call (← unesc n) as, rest')
+    | _ => none
+def undumps : Nat → Nat → List String → Option (List Expr × List String)
+  | 0, _, _ => none
+  | _ + 1, 0, ts => some ([], ts)
+  | f + 1, k + 1, ts => do
+    let (e, r1) ← undump f ts
+    let (es, r2) ← undumps f k r1
+    pure (e :: es, r2)
+end
+
+def undumpAll (ts : List String) : Option Expr :=
+  match undump (ts.length + 2) ts with
+  | some (e, []) => some e
+  | _ => none
+
+/-! branch coverage derived from the trees the model went through -/
+
+def hasEsc (q : Char) (s : String) : Bool := s.toList.contains q
+
+partial def branches : Expr → List String
+  | .lit (.num (.int 8 _)) => ["num-octal"]
+  | .lit (.num (.int _ v)) => if v < 0 then ["num-negative"] else ["num-int"]
+  | .lit (.num (.flt _)) => ["num-float"]
+  | .lit (.dur _ l) => if l.isEmpty then ["dur-noliteral"] else ["dur"]
+  | .lit (.bool _) => ["bool"]
+  | .lit (.str l t) => (if t then ["str-triple"] else ["str-single"]) ++ (if hasEsc '\'' l then ["str-quote-inside"] else []) ++ (if hasEsc '\\' l then ["str-backslash-inside"] else [])
+  | .lit (.rx re l) => (if l.isEmpty then ["rx-noliteral"] else ["rx"]) ++ (if hasEsc '/' re then ["rx-slash-inside"] else [])
+  | .lit (.ref s) => "ref" :: (if hasEsc '"' s then ["ref-quote-inside"] else [])
+  | .lit .star => ["star"]
+  | .id _ => ["ident"]
+  | .un op e =>
+    (match op with | .neg => "un-neg" | .not => "un-not") ::
+      (match e with | .bin _ _ _ true => ["un-over-parens"] | .bin _ _ _ false => ["un-over-bare-binary"] | .un _ _ => ["un-un"] | _ => []) ++ branches e
+  | .bin o l r p =>
+    (if p then ["bin-parens"] else ["bin"]) ++
+    (match l with
+      | .bin ol _ _ false => if prec ol < prec o then ["left-looser-bare"] else if prec ol = prec o then ["left-assoc-chain"] else ["left-tighter"]
+      | _ => []) ++
+    (match r with
+      | .bin or' _ _ false => if prec or' ≤ prec o then ["right-not-tighter-bare"] else ["right-climb"]
+      | _ => []) ++ branches l ++ branches r
+  | .call _ args => (if args.isEmpty then "call-0" else "call-n") :: (args.map branches).flatten
+
+def statusOf {α} : Res α → String
+  | .ok _ => "ok"
+  | .err => "err"
+  | .na w => "na:" ++ w
+
+structure St where
+  cur : Res Expr := .err
+  txt : Res String := .err
+  modelOff : Option String := none       -- set when the model says "not covered": later ops are spec-only
+  evs : Array Spec.Ev := #[]
+  br : List String := []
+  nt : Bool := false
+  mism : Option String := none
+  afterPtick : Bool := false
+
+def addBr (st : St) (bs : List String) : St :=
+  { st with br := bs.foldl (fun acc b => if acc.contains b then acc else b :: acc) st.br }
+
+def treeEv (via : String) (obs : List String) : Option Spec.Ev :=
+  match obs with
+  | "ok" :: d => (Spec.readDump d).map (fun t => .tree via (some t))
+  | ["err"] => some (.tree via none)
+  | ["panic"] => some (.panic via)
+  | _ => none
+
+def noteMism (st : St) (d : String) : St := if st.mism.isSome then st else { st with mism := some d }
+
+/-- compare a model tree result with the observation of a tree-producing op -/
+def cmpTree (st : St) (what : String) (obs : List String) : St :=
+  match st.modelOff with
+  | some _ => st
+  | none =>
+    match st.cur with
+    | .na w => { addBr st ["na:" ++ w] with modelOff := some w }
+    | .err => if obs == ["err"] then addBr st [what ++ "-err"] else noteMism st s!"{what}: model err observed {obs.take 12}"
+    | .ok e =>
+      let d := dump e
+      let st := addBr st (branches e)
+      if obs == "ok" :: d then st else noteMism st s!"{what}: model ok {d.take 24} observed {obs.take 24}"
+
+def cmpText (st : St) (what : String) (obs : List String) : St :=
+  match st.modelOff with
+  | some _ => st
+  | none =>
+    match st.txt with
+    | .na w => { addBr st ["na:" ++ w] with modelOff := some w }
+    | .err => noteMism st s!"{what}: model has no text, observed {obs.take 2}"
+    | .ok s => if obs == [esc s] then st else noteMism st s!"{what}: model {esc s} observed {obs.take 2}"
+
+def judge (_id : String) (lines : Array String) : Verdict := Id.run do
+  let mut st : St := {}
+  for l in lines do
+    let (opT, obs) := splitObs (tokens l)
+    match opT with
+    | ["parse", src] =>
+      let some s := unesc src | return .badop l
+      let some ev := treeEv "parse" obs | return .badop l
+      st := { st with evs := st.evs.push ev, cur := parseLambda s }
+      st := cmpTree st "parse" obs
+    | "build" :: d =>
+      let some t := Spec.readDump d | return .badop l
+      match obs with
+      | ["ok"] => st := { st with evs := st.evs.push (.tree "build" (some t)) }
+      | ["panic"] => st := { st with evs := st.evs.push (.panic "build") }
+      | _ => return .badop l
+      match undumpAll d with
+      | some e => st := addBr { st with cur := .ok e } ("build" :: branches e)
+      | none => return .badop l
+    | ["fmt"] =>
+      match obs with
+      | ["panic"] => st := { st with evs := st.evs.push (.panic "fmt") }
+      | ["none"] => pure ()
+      | [t] =>
+        let some s := unesc t | return .badop l
+        st := { st with evs := st.evs.push (.text "fmt" s) }
+        st := { st with txt := st.cur.bind fmtStr }
+        match st.cur with
+        | .ok _ => st := cmpText st "fmt" obs
+        | _ => pure ()
+      | _ => return .badop l
+    | ["reparse"] =>
+      let some ev := treeEv "reparse" obs | return .badop l
+      st := { st with evs := st.evs.push ev, cur := st.txt.bind parseLambda }
+      st := cmpTree st "reparse" obs
+    | ["json"] =>
+      match obs with
+      | ["none"] => pure ()
+      | _ =>
+        let some ev := treeEv "json" obs | return .badop l
+        let before := st.cur
+        st := { st with evs := st.evs.push ev, cur := st.cur.bind jsonRT }
+        st := cmpTree st "json" obs
+        match before, st.cur with
+        | .ok a, .ok b => if dump a != dump b then st := addBr st ["json-changes-tree"] else st := addBr st ["json-identity"]
+        | _, _ => pure ()
+    | ["script", _] =>
+      let some ev := treeEv "script" obs | return .badop l
+      st := addBr { st with evs := st.evs.push ev, modelOff := some "script" } ["script"]
+    | ["sfmt"] =>
+      match obs with
+      | ["panic"] => st := { st with evs := st.evs.push (.panic "sfmt") }
+      | ["none"] => pure ()
+      | [t] =>
+        let some s := unesc t | return .badop l
+        if (s.splitOn "//").length > 1 then st := addBr st ["script-comments"]
+        st := { st with evs := st.evs.push (.text "sfmt" s) }
+      | _ => return .badop l
+    | ["sreparse"] =>
+      let some ev := treeEv "sreparse" obs | return .badop l
+      st := { st with evs := st.evs.push ev }
+    | [op, _edge] =>
+      if op == "dot" || op == "pjson" then
+        match obs with
+        | ["ok", d, j] =>
+          let some ds := unesc d | return .badop l
+          let some js := unesc j | return .badop l
+          let via := if st.afterPtick then "ptick-" ++ op else op
+          st := addBr { st with evs := st.evs.push (.pipe via (some (ds, js))), nt := true } ["pipeline-" ++ via]
+        | ["panic"] => st := { st with evs := st.evs.push (.panic op) }
+        | _ => st := { st with evs := st.evs.push (.pipe (if st.afterPtick then "ptick-" ++ op else op) none) }
+      else if op == "ptick" then
+        match obs with
+        | ["panic"] => st := { st with evs := st.evs.push (.panic op) }
+        | [t] =>
+          if t == "err" || t == "err:build" then st := { st with evs := st.evs.push (.pipe op none) }
+          else
+            let some s := unesc t | return .badop l
+            st := addBr { st with evs := st.evs.push (.text "ptick" s), afterPtick := true } ["pipeline-ptick"]
+        | _ => return .badop l
+      else return .badop l
+    | _ => return .badop l
+  -- 1. the property itself, on what the implementation did
+  let (knownKeys, fail) := Spec.specRun st.evs.toList
+  match fail with
+  | some f => return .specfail f.clause f.detail
+  | none => pure ()
+  -- 2. the tie
+  match st.mism with
+  | some d => return .mismatch d
+  | none => pure ()
+  match knownKeys with
+  | k :: _ => return .known k (" ".intercalate knownKeys)
+  | [] => pure ()
+  let nt := st.nt || st.br.any (fun b => b == "bin-parens" || b == "right-climb" || b == "left-assoc-chain" || b == "un-over-parens" || b == "json-changes-tree")
+  return .ok nt st.br.reverse
+
+end Kap.C13.Drv
+
+def main : IO Unit := Kap.driverMain Kap.C13.Drv.judge
